@@ -74,7 +74,10 @@ func (p *VipnodePool) CloseRemote(remote jsonrpc2.Service) error {
 	}
 
 	delete(p.remoteNodeLookup, remote)
-	delete(p.remoteHosts, nodeID)
+	if p.remoteHosts[nodeID] == remote {
+		// Only if the host has not re-registered on a newer connection since.
+		delete(p.remoteHosts, nodeID)
+	}
 
 	return nil
 }
